@@ -1030,9 +1030,9 @@ def classify_known(stage, case, viol):
 def stages(ctx):
     return [
         Stage('msg', run_msg, msg_case_strategy(ctx.tier),
-              quick=1500, thorough=30000),
+              quick=1200, thorough=30000),
         Stage('bundle', run_bundle, bundle_case_strategy(ctx.tier),
-              quick=600, thorough=12000),
+              quick=500, thorough=12000),
         Stage('clump', run_clump, clump_case(), quick=150, thorough=1500),
         Stage('dsend', run_dsend, dsend_case(), quick=120, thorough=1500),
         Stage('score', run_score, score_case_strategy(),
